@@ -1,1 +1,246 @@
-//! oracle for rc5 — to be written from the specification
+//! RC5-w/r/b, written from R. Rivest, "The RC5 Encryption Algorithm" (1994/1997), sections 4.1-4.3.
+//!
+//! One runtime-parameterised model for every word size: words are held in `u128` and every operation is reduced
+//! mod 2^w explicitly (so the model never uses a native w-bit type).  `x <<< y` uses only the lg(w) low bits of y
+//! (the paper's rule for w a power of two).
+//!
+//! Constants.  The paper defines P_w = Odd((e-2) 2^w), Q_w = Odd((phi-1) 2^w) and lists them for w = 16, 32, 64
+//! (those three pairs are copied from the paper: data).  For w = 8 and w = 128 the paper gives only the formula; the
+//! values below were taken from the repository (data) and are *re-derived* natively from the binary expansions of
+//! e and phi by `derive_pq` (called from the validation driver), so they are not trusted blindly.
+//!
+//! Word arithmetic is a parameter (`Ops`): `Canon(w)` is the model's own arithmetic (u128, reduced mod 2^w);
+//! a harness may substitute another implementation of the four leaf operations after proving it extensionally equal
+//! to `Canon(w)` (leaf lemma), e.g. to hand the solver the same gate structure on both sides of an equivalence.
+//!
+//! Const generics: `T` = 2(r+1) words of expanded key, `C` = max(1, ceil(8b/w)) key words.  They are array sizes only
+//! (arrays above 64 elements are expensive for CBMC, so they are not over-allocated); `expand_key` recomputes c
+//! from b and w as the paper does and the caller's C is checked against it.
+
+pub const fn mask(w: u32) -> u128 {
+    if w >= 128 {
+        u128::MAX
+    } else {
+        (1u128 << w) - 1
+    }
+}
+
+/// (P_w, Q_w)
+pub const fn pq(w: u32) -> (u128, u128) {
+    match w {
+        8 => (0xb7, 0x9f),
+        16 => (0xb7e1, 0x9e37),
+        32 => (0xb7e15163, 0x9e3779b9),
+        64 => (0xb7e151628aed2a6b, 0x9e3779b97f4a7c15),
+        _ => (0xb7e151628aed2a6abf7158809cf4f3c7, 0x9e3779b97f4a7c15f39cc0605cedc835),
+    }
+}
+
+/// First 128 fractional bits of e and of the golden ratio phi, plus the following 8 bits (for rounding):
+/// e - 2 = 0.b7e151628aed2a6abf7158809cf4f3c7 62...,  phi - 1 = 0.9e3779b97f4a7c15f39cc0605cedc834 10...  (hex)
+pub const E_FRAC: (u128, u8) = (0xb7e151628aed2a6abf7158809cf4f3c7, 0x62);
+pub const PHI_FRAC: (u128, u8) = (0x9e3779b97f4a7c15f39cc0605cedc834, 0x10);
+
+/// Odd(x 2^w): the odd integer nearest to x 2^w, from the binary expansion of x (validation only, never under Kani).
+pub fn odd_nearest(frac: (u128, u8), w: u32) -> u128 {
+    let int = if w == 128 { frac.0 } else { frac.0 >> (128 - w) };
+    if int & 1 == 1 {
+        // candidates int (distance = fractional part < 1) and int + 2 (distance > 1)
+        int
+    } else {
+        // even: int - 1 is at distance 1 + f, int + 1 at distance 1 - f (f > 0 since e, phi are irrational)
+        int + 1
+    }
+}
+pub fn derive_pq(w: u32) -> (u128, u128) {
+    (odd_nearest(E_FRAC, w), odd_nearest(PHI_FRAC, w))
+}
+
+pub fn add(x: u128, y: u128, w: u32) -> u128 {
+    x.wrapping_add(y) & mask(w)
+}
+pub fn sub(x: u128, y: u128, w: u32) -> u128 {
+    x.wrapping_sub(y) & mask(w)
+}
+/// x <<< y on w-bit words (w a power of two: only the low lg(w) bits of y count)
+pub fn rotl(x: u128, y: u128, w: u32) -> u128 {
+    let s = (y & (w as u128 - 1)) as u32;
+    if s == 0 {
+        x & mask(w)
+    } else {
+        ((x << s) | ((x & mask(w)) >> (w - s))) & mask(w)
+    }
+}
+pub fn rotr(x: u128, y: u128, w: u32) -> u128 {
+    let s = (y & (w as u128 - 1)) as u32;
+    if s == 0 {
+        x & mask(w)
+    } else {
+        (((x & mask(w)) >> s) | (x << (w - s))) & mask(w)
+    }
+}
+
+/// The four leaf operations on w-bit words carried in u128 (results < 2^w; arguments are reduced mod 2^w).
+pub trait Ops: Copy {
+    fn add(&self, x: u128, y: u128) -> u128;
+    fn sub(&self, x: u128, y: u128) -> u128;
+    /// x <<< y (low lg(w) bits of y)
+    fn rotl(&self, x: u128, y: u128) -> u128;
+    fn rotr(&self, x: u128, y: u128) -> u128;
+}
+/// The model's own arithmetic for word size w.
+#[derive(Clone, Copy)]
+pub struct Canon(pub u32);
+impl Ops for Canon {
+    fn add(&self, x: u128, y: u128) -> u128 {
+        add(x, y, self.0)
+    }
+    fn sub(&self, x: u128, y: u128) -> u128 {
+        sub(x, y, self.0)
+    }
+    fn rotl(&self, x: u128, y: u128) -> u128 {
+        rotl(x, y, self.0)
+    }
+    fn rotr(&self, x: u128, y: u128) -> u128 {
+        rotr(x, y, self.0)
+    }
+}
+
+/// c = max(1, ceil(8b/w))
+pub const fn key_words(w: u32, b: usize) -> usize {
+    let c = (8 * b + w as usize - 1) / w as usize;
+    if c == 0 {
+        1
+    } else {
+        c
+    }
+}
+
+/// Step 1: "for i = b-1 downto 0 do L[i/u] = (L[i/u] <<< 8) + K[i]", u = w/8, L zero-initialised, c words.
+pub fn key_to_words<const C: usize>(w: u32, key: &[u8]) -> [u128; C] {
+    key_to_words_with::<C, Canon>(w, key, Canon(w))
+}
+pub fn key_to_words_with<const C: usize, O: Ops>(w: u32, key: &[u8], o: O) -> [u128; C] {
+    let b = key.len();
+    let u = (w / 8) as usize;
+    assert!(key_words(w, b) == C);
+    let mut l = [0u128; C];
+    let mut i = b;
+    while i > 0 {
+        i -= 1;
+        l[i / u] = o.add(o.rotl(l[i / u], 8), key[i] as u128);
+    }
+    l
+}
+
+/// Step 2: S[0] = P_w; S[i] = S[i-1] + Q_w, t = 2(r+1) words.
+pub fn init_table<const T: usize>(w: u32) -> [u128; T] {
+    init_table_with::<T, Canon>(w, Canon(w))
+}
+pub fn init_table_with<const T: usize, O: Ops>(w: u32, o: O) -> [u128; T] {
+    let (p, q) = pq(w);
+    let mut s = [0u128; T];
+    s[0] = p;
+    let mut i = 1;
+    while i < T {
+        s[i] = o.add(s[i - 1], q);
+        i += 1;
+    }
+    s
+}
+
+/// Step 3: i = j = 0; A = B = 0; do 3 max(t, c) times:
+///   A = S[i] = (S[i] + A + B) <<< 3;  B = L[j] = (L[j] + A + B) <<< (A + B);  i = (i+1) mod t; j = (j+1) mod c
+pub fn mix<const T: usize, const C: usize>(w: u32, s: [u128; T], l: [u128; C]) -> [u128; T] {
+    mix_with::<T, C, Canon>(s, l, Canon(w))
+}
+pub fn mix_with<const T: usize, const C: usize, O: Ops>(mut s: [u128; T], mut l: [u128; C], o: O) -> [u128; T] {
+    let (mut i, mut j) = (0usize, 0usize);
+    let (mut a, mut b) = (0u128, 0u128);
+    let n = 3 * if T > C { T } else { C };
+    let mut k = 0;
+    while k < n {
+        a = o.rotl(o.add(o.add(s[i], a), b), 3);
+        s[i] = a;
+        // "(L[j] + A + B) <<< (A + B)": the sum is read left to right, the rotation count is A + B
+        let ab = o.add(a, b);
+        b = o.rotl(o.add(o.add(l[j], a), b), ab);
+        l[j] = b;
+        i = (i + 1) % T;
+        j = (j + 1) % C;
+        k += 1;
+    }
+    s
+}
+
+pub fn expand_key<const T: usize, const C: usize>(w: u32, key: &[u8]) -> [u128; T] {
+    mix::<T, C>(w, init_table::<T>(w), key_to_words::<C>(w, key))
+}
+pub fn expand_key_with<const T: usize, const C: usize, O: Ops>(w: u32, key: &[u8], o: O) -> [u128; T] {
+    mix_with::<T, C, O>(init_table_with::<T, O>(w, o), key_to_words_with::<C, O>(w, key, o), o)
+}
+
+/// A = A + S[0]; B = B + S[1]; for i = 1..r: A = ((A ^ B) <<< B) + S[2i]; B = ((B ^ A) <<< A) + S[2i+1]
+pub fn encrypt_words<const T: usize>(w: u32, s: &[u128; T], a: u128, b: u128) -> (u128, u128) {
+    encrypt_words_with::<T, Canon>(s, a & mask(w), b & mask(w), Canon(w))
+}
+pub fn encrypt_words_with<const T: usize, O: Ops>(s: &[u128; T], a: u128, b: u128, o: O) -> (u128, u128) {
+    let r = T / 2 - 1;
+    let mut a = o.add(a, s[0]);
+    let mut b = o.add(b, s[1]);
+    let mut i = 1;
+    while i <= r {
+        a = o.add(o.rotl(a ^ b, b), s[2 * i]);
+        b = o.add(o.rotl(b ^ a, a), s[2 * i + 1]);
+        i += 1;
+    }
+    (a, b)
+}
+
+/// for i = r downto 1: B = ((B - S[2i+1]) >>> A) ^ A; A = ((A - S[2i]) >>> B) ^ B;  B = B - S[1]; A = A - S[0]
+pub fn decrypt_words<const T: usize>(w: u32, s: &[u128; T], a: u128, b: u128) -> (u128, u128) {
+    decrypt_words_with::<T, Canon>(s, a & mask(w), b & mask(w), Canon(w))
+}
+pub fn decrypt_words_with<const T: usize, O: Ops>(s: &[u128; T], a: u128, b: u128, o: O) -> (u128, u128) {
+    let r = T / 2 - 1;
+    let (mut a, mut b) = (a, b);
+    let mut i = r;
+    while i >= 1 {
+        b = o.rotr(o.sub(b, s[2 * i + 1]), a) ^ a;
+        a = o.rotr(o.sub(a, s[2 * i]), b) ^ b;
+        i -= 1;
+    }
+    (o.sub(a, s[0]), o.sub(b, s[1]))
+}
+
+/// Little-endian word <-> bytes (paper, section 4: "little-endian conventions").
+pub fn word_from_le(bytes: &[u8]) -> u128 {
+    let mut x = 0u128;
+    let mut i = bytes.len();
+    while i > 0 {
+        i -= 1;
+        x = (x << 8) | bytes[i] as u128;
+    }
+    x
+}
+pub fn word_to_le(x: u128, out: &mut [u8]) {
+    let mut i = 0;
+    while i < out.len() {
+        out[i] = (x >> (8 * i)) as u8;
+        i += 1;
+    }
+}
+
+/// Block = A || B, each w/8 bytes little-endian.  `block` is transformed in place.
+pub fn crypt_block<const T: usize>(w: u32, s: &[u128; T], block: &mut [u8], decrypt: bool) {
+    crypt_block_with::<T, Canon>(w, s, block, decrypt, Canon(w))
+}
+pub fn crypt_block_with<const T: usize, O: Ops>(w: u32, s: &[u128; T], block: &mut [u8], decrypt: bool, o: O) {
+    let u = (w / 8) as usize;
+    assert!(block.len() == 2 * u);
+    let a = word_from_le(&block[..u]);
+    let b = word_from_le(&block[u..]);
+    let (a, b) = if decrypt { decrypt_words_with(s, a, b, o) } else { encrypt_words_with(s, a, b, o) };
+    word_to_le(a, &mut block[..u]);
+    word_to_le(b, &mut block[u..]);
+}
